@@ -92,6 +92,7 @@ def r1_lex_range(c, facts):
                 c.ok(R, {fn.qname: 'parses the loaded text unchanged'})
             else:
                 c.bad(R, '%s:text-transformed' % fn.d['impl_self'], '%s::parse transforms the loaded text (%s) before parsing' % (fn.d['impl_self'], bad))
+    loader_text(c, facts, R)
     ld = c.anchor(R, 'oal_compiler::module::load')
     lidx = MF.defs_index(ld)
     for b, t in P.call_blocks(ld, 'module::Loader::parse'):
@@ -121,6 +122,24 @@ def r1_lex_range(c, facts):
                 c.ok(R, {'SyntaxTree::detach': 'copies the stored range (token_span(..).range())'})
             else:
                 c.bad(R, 'detach-range-not-copied', 'SyntaxTree::detach pushes a range that is not the stored range of the token')
+
+
+def loader_text(c, facts, R):
+    """every Loader::load returns the stored / read text unchanged"""
+    n = 0
+    for fn in sorted(facts.fns.values(), key=lambda f: f.qname):
+        if (fn.d.get('impl_trait') or '').endswith('module::Loader') and fn.d.get('assoc_name') == 'load':
+            n += 1
+            idx = MF.defs_index(fn)
+            sl = MF.slice_back(fn, 0, idx)
+            names = {P.strip(x).split('::')[-1] for x, _, _ in sl['calls']}
+            bad = sorted(names - TRANSFORMS_OK - {'from_residual', 'url', 'as_str', 'eq', 'ne'})
+            if bad:
+                c.bad(R, '%s::load:text-transformed:%s' % (fn.d['impl_self'].split('::')[-1].split('<')[0], ','.join(bad)),
+                      '%s::load transforms the text it loads (%s): spans no longer index the text the user sees, and this front end accepts or rejects sources differently from the others' % (fn.d['impl_self'], ', '.join(bad)))
+            else:
+                c.ok(R, {fn.qname: 'returns the loaded text unchanged'})
+    c.floor(R, 'Loader::load implementations', n, 3)
 
 
 def pat_binds(p):
